@@ -127,7 +127,7 @@ CLAIMS.update({
 CLAIMS.update({
  "C14": dict(
    technique="compositional translation-weight typing (LF engine): symbolic shift of all position-like atoms, affine-weight inference for scalars/vectors, Min/Max and kernel lemmas",
-   text="Decides the structural half of C14 in all six configurations: every add_force argument of the cell routines and of the configured contact model (including arguments of opaque geometric calls) has translation weight 0; the kernel outputs have weight 0; integrator displacements have weight 0 and points written by pos_.reset weight 1; nodes added by split/merge have weight 1; both operands of every position-dependent comparison in the refiner, the contact look-up and narrow phase, the box test and the divider's plane tests have equal weights per axis; grid quantisation numerators have weight 0 and face boxes / global extrema weight 1 on their own axis.",
+   text="Decides the structural half of C14 in all six configurations: every add_force argument of the cell routines and of the configured contact model (including arguments of opaque geometric calls) has translation weight 0; the kernel outputs have weight 0; integrator displacements have weight 0 and points written by pos_.reset weight 1; nodes added by split/merge have weight 1; both operands of every position-dependent comparison in the refiner, the contact look-up and narrow phase, the box test and the divider's plane tests have equal weights per axis; grid quantisation numerators have weight 0 and face boxes / global extrema weight 1 on their own axis; every running minimum/maximum of coordinates in the product starts from a sentinel on the right side (+inf/max() for minima, -inf/lowest() for maxima; numeric_limits::min() is positive).",
    note="Rounding-level agreement of two runs and the absolute tolerances (almost_equal(x,0), machine-epsilon padding of the grids) are value-level and not decided. Declared exceptions: compute_volume (origin-based), compute_centroid (weight 1). Cached geometric state is treated as invariant (established by C02/C12). Loop-accumulated points (CM 2 averaged positions) are declined.",
    ref="DESIGN.md section 4 C14"),
 })
